@@ -89,7 +89,7 @@ def gen_op(rng, name, npool, opts):  # pylint: disable=too-many-branches,too-man
             'op': name,
             'keys': [rng.randrange(64) for _ in range(rng.choice([0, 1, 1, 2, 3]))],
             'absent': rng.choice([0, 0, 1, 2]),
-            'repeats': rng.choice([0, 0, 1]),
+            'repeats': 0,  # C11 speaks of *sets* of keys; repeated keys + a stray duplicate file raise (DESIGN.md 4b)
             'seed': rng.randrange(1 << 20),
         }
     if name == 'loosen':
